@@ -20,7 +20,7 @@ Inductive oneshot := OSPending (ws : list N) | OSFired (r : wres).
    command Deferred that was chained at the acknowledgement (leaves None behind); the same for a stream,
    where nobody observes the command Deferred *)
 Inductive cbitem := CbWaiter (w : N) | CbChain (w : N) | CbChainSilent.
-Inductive cmdrec := CmdC (o w : N) (ok : bool) | CmdS (o : N) (ok : bool).
+Inductive cmdrec := CmdC (o w : N) (ok : bool) | CmdS (o w : N) (ok : bool).
 
 Record xstate := { base : mstate;
                    cls : list (N * list N); sls : list (N * list N);     (* object -> its listeners, in order *)
@@ -34,13 +34,6 @@ Definition xinit (rts : list (N * N)) : xstate :=
   {| base := init rts; cls := []; sls := []; gcl := []; gsl := []; wbs := []; wcs := []; cclosing := []; sclosing := [];
      cmds := [] |}.
 
-Section Tables.
-  Context {V : Type}.
-  Definition tget (d : V) (t : list (N * V)) (k : N) : V := match kfind fst k t with Some p => snd p | None => d end.
-  Definition tfind (t : list (N * V)) (k : N) : option V := option_map snd (kfind fst k t).
-  Definition tset (t : list (N * V)) (k : N) (v : V) : list (N * V) := kset fst (k, v) t.
-  Definition tdel (t : list (N * V)) (k : N) : list (N * V) := kdel fst k t.
-End Tables.
 
 Definition with_base (s : xstate) (b : mstate) : xstate :=
   {| base := b; cls := cls s; sls := sls s; gcl := gcl s; gsl := gsl s; wbs := wbs s; wcs := wcs s;
@@ -274,7 +267,7 @@ Definition x_op (s : xstate) (o : op) : option (xstate * list nev) :=
           | None =>
               let ok := kmem fst (s_id x) (streams (base s)) in
               Some ({| base := base s; cls := cls s; sls := sls s; gcl := gcl s; gsl := gsl s; wbs := wbs s; wcs := wcs s;
-                       cclosing := cclosing s; sclosing := tset (sclosing s) o [CbWaiter w]; cmds := cmds s ++ [CmdS o ok] |},
+                       cclosing := cclosing s; sclosing := tset (sclosing s) o [CbWaiter w]; cmds := cmds s ++ [CmdS o w ok] |},
                     [NCmd 1 (s_id x)])
           end
       end
@@ -295,7 +288,7 @@ Definition x_op (s : xstate) (o : op) : option (xstate * list nev) :=
           else
             Some ({| base := base s; cls := cls s; sls := sls s; gcl := gcl s; gsl := gsl s; wbs := wbs s; wcs := wcs s;
                      cclosing := cclosing s; sclosing := sclosing s; cmds := q |}, [NDone w (WFail 4 0 0)])
-      | CmdS o ok :: q =>
+      | CmdS o _ ok :: q =>
           Some ({| base := base s; cls := cls s; sls := sls s; gcl := gcl s; gsl := gsl s; wbs := wbs s; wcs := wcs s;
                    cclosing := cclosing s;
                    sclosing := if ok then match tfind (sclosing s) o with
